@@ -165,6 +165,8 @@ def _not(c):
 
 def _mk_if(c, t, e):
     """if c {t} else {e} with the boolean identities applied"""
+    if c[0] == "op" and c[1] == "Not" and len(c[2]) == 1:
+        return _mk_if(c[2][0], e, t)
     if t == ("lit", True) and e == ("lit", False):
         return c
     if e == ("lit", False):
@@ -911,6 +913,13 @@ class Norm:
             recv = self._t(e["recv"])
             args = [self._t(a) for a in e["args"]]
             name = {"Vec::is_empty": "slice::is_empty", "Vec::len": "slice::len", "Vec::first": "slice::first", "Vec::last": "slice::last"}.get(name, name)
+            if not args and name in ("Option::is_some", "Option::is_none", "Result::is_ok", "Result::is_err"):
+                c = _let({"Option::is_some": "v1::Some($)", "Option::is_none": "v1::Some($)", "Result::is_ok": "v1::Ok($)", "Result::is_err": "v1::Err($)"}[name], recv)
+                return _not(c) if name == "Option::is_none" else c
+            if name in ("Option::unwrap", "Option::expect") and len(args) <= 1:
+                return _proj_some(recv)                      # the payload; whether the unwrap can fail is K10's business, not the term's
+            if name in ("Result::unwrap", "Result::expect") and len(args) <= 1:
+                return ("proj", recv, "v1::Ok", "0")
             if name == "Option::ok_or" and len(args) == 1:
                 return ("call", "ok_or", [recv, args[0]])
             if name == "Option::ok_or_else" and len(args) == 1 and args[0][0] == "closure" and args[0][2] == 0:
@@ -1013,7 +1022,7 @@ class Norm:
                             tail = ("opaque", "diverge")
             if tail == ("lit", "()") and e.get("ty") == "!":
                 tail = ("opaque", "diverge")
-            if effs and tail[0] == "if" and _is_unit(tail[3]):
+            if effs and tail[0] == "if" and (_is_unit(tail[3]) or _is_unit(tail[2])):
                 both = _found_flag_loops(effs + [tail])
                 if len(both) < len(effs) + 1:
                     effs, tail = both, ("lit", "()")
@@ -1325,10 +1334,10 @@ def _found_flag_loops(effs):
         a = effs[i]
         b = effs[i + 1] if i + 1 < len(effs) else None
         done = False
-        if b is not None and a[0] == "for" and a[2][0] == "if" and _is_unit(a[2][3]) and b[0] == "if" and _is_unit(b[3]) \
-                and b[1][0] == "op" and b[1][1] == "Not" and b[1][2][0][0] == "mut":
+        if b is not None and a[0] == "for" and a[2][0] == "if" and _is_unit(a[2][3]) and b[0] == "if" and _is_unit(b[2]) and b[1][0] == "mut":
+            # (`if !found { B }` is kept as `if found {} else { B }`)
             it, c, hit = a[1], a[2][1], a[2][2]
-            m = b[1][2][0]
+            m = b[1]
             acts = None
             if hit[0] == "seq" and hit[2][0] == "break":
                 acts = hit[1]
@@ -1337,7 +1346,7 @@ def _found_flag_loops(effs):
             if acts is not None and m[2] == ("lit", False) and len(m[3]) == 1 and m[3][0][0] == "assign" and m[3][0][1] == "" and m[3][0][2] == ("lit", True) \
                     and tuple(m[3][0][3][-2:]) == ("for(" + _show(it) + ")", _show(c)):
                 A = ("lit", "()") if not acts else acts[0] if len(acts) == 1 else ("seq", acts[:-1], acts[-1])
-                out.append(("call", "search", [it, c, A, b[2]]))
+                out.append(("call", "search", [it, c, A, b[3]]))
                 i += 2
                 done = True
         if not done:
